@@ -346,10 +346,11 @@ theorem lparse_sound (G : Grammar) (hG : GBoundsOk G) :
           | ok ms0 =>
             rw [hx] at h
             simp only at h
-            split at h
-            · rename_i a _; cases a <;> simp [Abort.toRes] at h
-            · rename_i kept hkept
-              simp only [wrapRule] at h
+            cases hkept : filtOpt (ruleKeep (fun t x => lparse G f t (.ref x) 0) info.excl) ms0 [] with
+            | error a => rw [hkept] at h; cases a <;> simp [ruleFinish, Abort.toRes] at h
+            | ok kept =>
+              rw [hkept] at h
+              simp only [ruleFinish, wrapRule] at h
               split at h
               · simp at h
               · simp at h; subst h
